@@ -989,7 +989,277 @@ class RemDupCall(UniqueCall):
         return any(ks.count(k) >= 3 and ks.index(k) > 0 for k in set(ks))
 
 
-ENTRIES = [Match(), MatchMulti(), MatchForms(), Unique(), UniqueValues(), UniqueCall(), RemDup(), RemDupValues(), RemDupCall()]
+# ----------------------------------------------------------------------------
+# round 3: HISTORY - several calls in ONE process on the same array OBJECTS, contents changed in place between calls
+# (a result remembered from an earlier call - keyed by object identity, by id() of a dead temporary, by length / first /
+# last element / sum - must not leak into a later call).  Every call of a sequence is judged as usual (model =
+# implementation?  verified checker) on the contents the arrays have AT THAT CALL, and against the same call repeated
+# at the end of the sequence on fresh copies of those contents.
+# ----------------------------------------------------------------------------
+
+MUT_OPS = ("perm", "replace", "sort", "reverse", "negate", "swap-inner", "rebind-equal", "rebind-new", "rotate")
+
+
+def gen_history_case(r, quick=True):
+    kind = r.choice(ALL_KINDS)
+    rng = r.choice(["small", "small", "large"])
+    pool = gen_pool(r, kind, rng, 12)
+    if len(pool) < 5:
+        kind, rng = "i8", "small"
+        pool = gen_pool(r, kind, rng, 12)
+    n = r.randrange(2, min(7, len(pool) - 1) + 1)
+    A = r.sample(pool, n)
+    pick = lambda m: [r.choice(pool) for _ in range(m)]   # noqa
+    B = pick(r.randrange(1, 7))
+    D = pick(r.randrange(2, 9))
+    dt, F = gen_flags2(r, len(D))
+    steps = []
+    focus = r.choice(["match", "match", "match", "dedup", "both"])
+    numeric_signed = kind in FLOAT_KINDS or (kind in INT_KINDS and INT_KINDS[kind][0] < 0)
+
+    def mutate(ref, length):
+        ops = ["perm", "replace", "sort", "reverse", "swap-inner", "rebind-equal", "rebind-new", "rotate"] + (["negate"] if numeric_signed else [])
+        if ref == "A":
+            ops += ["dup", "dup"]          # a repeated value written into the (so far distinct) first array: must be rejected now
+        op = r.choice(ops)
+        st = {"op": op, "ref": ref}
+        if op in ("replace", "rebind-new"):
+            st["vals"] = r.sample(pool, length) if (ref == "A" and r.random() < 0.9 and length <= len(pool)) else pick(length)
+        if op in ("perm", "dup"):
+            st["seed"] = r.randrange(10**6)
+        return st
+
+    def mcall(presorted_ok):
+        fn = r.choice(["match", "match", "match_multi"])
+        pres = r.choice([False, False, None, True]) if (presorted_ok or fn == "match_multi") else r.choice([False, False, None])
+        return {"op": fn, "a1": "A", "a2": "B", "presorted": pres}
+
+    if focus in ("match", "both"):
+        steps.append(mcall(False))
+        for _ in range(r.randrange(2, 5)):
+            c = r.random()
+            if c < 0.7:
+                st = mutate("A", n)
+                steps.append(st)
+                steps.append(mcall(st["op"] == "sort"))
+            elif c < 0.85:
+                steps.append(mutate("B", len(B)))
+                steps.append(mcall(False))
+            else:
+                # two calls on temporaries of equal length created inline and dropped (id() of a dead object is reused)
+                steps.append({"op": "temp-match", "a1": r.sample(pool, n), "a2": pick(len(B)), "multi": r.random() < 0.3})
+                steps.append({"op": "temp-match", "a1": r.sample(pool, n), "a2": pick(len(B)), "multi": r.random() < 0.3})
+        if r.random() < 0.3:
+            steps.append(mcall(False))                      # the same call twice in a row, nothing changed
+    if focus in ("dedup", "both"):
+        for _ in range(r.randrange(2, 4)):
+            steps.append({"op": r.choice(["unique", "rem_dup"]), "arr": "D", "flag": "F", "values": r.choice([False, True, None])})
+            if r.random() < 0.75:
+                steps.append(mutate("D", len(D)))
+            else:
+                st = {"op": r.choice(["replace", "reverse", "sort", "perm"]), "ref": "F"}
+                if st["op"] == "replace":
+                    if dt == "f8":
+                        st["flags"] = [float(r.choice([r.uniform(-3, 3), r.randrange(-2, 3) / 2.0, 0.0, -0.0])).hex() for _ in D]
+                    elif dt in ("?", "u1", "i1"):
+                        st["flags"] = [r.randrange(0, 2) for _ in D]
+                    else:
+                        st["flags"] = [r.choice([r.randrange(-2, 3), 3, 3]) for _ in D]
+                if st["op"] == "perm":
+                    st["seed"] = r.randrange(10**6)
+                steps.append(st)
+        steps.append({"op": r.choice(["unique", "rem_dup"]), "arr": "D", "flag": "F", "values": r.choice([False, True])})
+    return {"kind": kind, "A": A, "B": B, "D": D, "F": F, "fdtype": dt, "steps": steps, "family": "history/%s/%s" % (
+        focus, "int" if kind in INT_KINDS else ("float" if kind in FLOAT_KINDS else "string"))}
+
+
+class History(Entry):
+    name = "history"
+
+    def cases(self, ctx, round=0):
+        r = ctx.rng
+        cs = []
+        if round == 0:
+            # the catalogue pattern: one first-array object, matched, changed in place, matched again
+            for kind, A, A2, B in (("i8", [3, 1, 2], [2, 3, 1], [2, 2, 7, 1]), ("U", [[98], [97], [99]], [[99], [98], [97]], [[97], [99]]),
+                                   ("f8", [float(x).hex() for x in (1.5, -2.0, 3.25)], [float(x).hex() for x in (3.25, 1.5, -2.0)],
+                                    [float(x).hex() for x in (-2.0, 9.0, 3.25)])):
+                cs.append({"kind": kind, "A": A, "B": B, "D": A + A[:1], "F": [1, 2, 3, 0], "fdtype": "i8", "family": "history/hand",
+                           "steps": [{"op": "match", "a1": "A", "a2": "B", "presorted": False},
+                                     {"op": "replace", "ref": "A", "vals": A2},
+                                     {"op": "match", "a1": "A", "a2": "B", "presorted": False},
+                                     {"op": "sort", "ref": "A"},
+                                     {"op": "match", "a1": "A", "a2": "B", "presorted": None},
+                                     {"op": "match_multi", "a1": "A", "a2": "B", "presorted": True},
+                                     {"op": "reverse", "ref": "A"},
+                                     {"op": "match_multi", "a1": "A", "a2": "B", "presorted": True},
+                                     {"op": "unique", "arr": "D", "flag": "F", "values": False},
+                                     {"op": "rem_dup", "arr": "D", "flag": "F", "values": True},
+                                     {"op": "reverse", "ref": "D"},
+                                     {"op": "unique", "arr": "D", "flag": "F", "values": True},
+                                     {"op": "rem_dup", "arr": "D", "flag": "F", "values": False},
+                                     {"op": "reverse", "ref": "F"},
+                                     {"op": "rem_dup", "arr": "D", "flag": "F", "values": None}]})
+            cs.append({"kind": "i8", "A": [4, 9, 6], "B": [9, 4, 5], "D": [1, 1], "F": [0, 1], "fdtype": "i8", "family": "history/hand",
+                       "steps": [{"op": "match", "a1": "A", "a2": "B", "presorted": False}, {"op": "dup", "ref": "A", "seed": 1},
+                                 {"op": "match", "a1": "A", "a2": "B", "presorted": False}, {"op": "match_multi", "a1": "A", "a2": "B", "presorted": None},
+                                 {"op": "replace", "ref": "A", "vals": [6, 4, 9]}, {"op": "match", "a1": "A", "a2": "B", "presorted": None}]})
+        for _ in range(ctx.n(160, 1500) if round == 0 else ctx.n(80, 400)):
+            cs.append(gen_history_case(r))
+        return cs
+
+    # ---- the real code, one process, the same objects
+    def impl(self, c):
+        import random as _random
+        import numpy as np
+        import esutil.numpy_util as nu
+        k = c["kind"]
+        slot = {"A": to_np(k, c["A"]), "B": to_np(k, c["B"]), "D": to_np(k, c["D"]), "F": flags_np2(c["fdtype"], c["F"])}
+        if is_str(k):          # room for every value of the case, so that in-place assignment does not truncate
+            w = max([len(v) for key_ in ("A", "B", "D") for v in c[key_]] +
+                    [len(v) for st in c["steps"] for v in (st.get("vals") or []) + (st.get("a1") if st["op"] == "temp-match" else [])
+                     + (st.get("a2") if st["op"] == "temp-match" else [])] + [1])
+            for key_ in ("A", "B", "D"):
+                slot[key_] = slot[key_].astype("%s%d" % (k, w))
+        calls, later = [], []
+
+        def fl_vals(arr):
+            return [float(x).hex() for x in arr.tolist()] if arr.dtype.kind == "f" else [int(x) for x in arr.tolist()]
+
+        def do_match(fn, x1, x2, pres):
+            m1, m2 = fn(x1, x2) if pres is None else fn(x1, x2, presorted=pres)
+            return [[int(i) for i in m1], [int(i) for i in m2]]
+
+        def do_unique(arr, values):
+            res = np.atleast_1d(nu.unique(arr) if values is None else nu.unique(arr, values=values))
+            if arr.dtype != np.dtype("i8"):
+                is_vals = res.dtype == arr.dtype
+            else:
+                is_vals = bool(values)
+            if not is_vals and any(int(i) < 0 for i in res):
+                is_vals = True
+            return {"vals": from_np(k, res)} if is_vals else {"idx": [int(i) for i in res]}
+
+        def do_rem_dup(arr, fl, values):
+            res = nu.rem_dup(arr, fl) if values is None else nu.rem_dup(arr, fl, values=values)
+            vals = None
+            if isinstance(res, tuple):
+                res, vals = res
+                vals = from_np(k, np.atleast_1d(vals))
+            return {"scalar": not isinstance(res, np.ndarray), "idx": [int(i) for i in np.atleast_1d(res)], "vals": vals}
+
+        for i, st in enumerate(c["steps"]):
+            op = st["op"]
+            if op in ("match", "match_multi"):
+                fn = nu.match_multi if op == "match_multi" else nu.match
+                x1, x2 = slot[st["a1"]], slot[st["a2"]]
+                rec = {"step": i, "fn": op, "a1": from_np(k, x1), "a2": from_np(k, x2), "presorted": st["presorted"]}
+                c1, c2 = x1.copy(), x2.copy()
+                rec["out"] = core.guarded(do_match, fn, x1, x2, st["presorted"])
+                later.append((rec, lambda fn=fn, c1=c1, c2=c2, p=st["presorted"]: core.guarded(do_match, fn, c1, c2, p)))
+                calls.append(rec)
+            elif op == "temp-match":
+                fn = nu.match_multi if st["multi"] else nu.match
+                rec = {"step": i, "fn": "match_multi" if st["multi"] else "match", "a1": st["a1"], "a2": st["a2"], "presorted": False}
+                rec["out"] = core.guarded(lambda: do_match(fn, to_np(k, st["a1"]), to_np(k, st["a2"]), False))
+                calls.append(rec)
+            elif op == "unique":
+                arr = slot[st["arr"]]
+                rec = {"step": i, "fn": "unique", "a": from_np(k, arr), "values": st["values"],
+                       "argsort": [int(j) for j in arr.copy().argsort()]}
+                ca = arr.copy()
+                rec["out"] = core.guarded(do_unique, arr, st["values"])
+                later.append((rec, lambda ca=ca, v=st["values"]: core.guarded(do_unique, ca, v)))
+                calls.append(rec)
+            elif op == "rem_dup":
+                arr, fl = slot[st["arr"]], slot[st["flag"]]
+                rec = {"step": i, "fn": "rem_dup", "a": from_np(k, arr), "flag": fl_vals(fl), "values": st["values"],
+                       "argsort": [int(j) for j in arr.copy().argsort()]}
+                ca, cf = arr.copy(), fl.copy()
+                rec["out"] = core.guarded(do_rem_dup, arr, fl, st["values"])
+                later.append((rec, lambda ca=ca, cf=cf, v=st["values"]: core.guarded(do_rem_dup, ca, cf, v)))
+                calls.append(rec)
+            else:                                           # a change of an argument object between calls
+                ref = st["ref"]
+                x = slot[ref]
+                if op == "perm":
+                    p = list(range(x.size))
+                    _random.Random(st["seed"]).shuffle(p)
+                    x[:] = x[p]
+                elif op == "replace":
+                    x[:] = flags_np2(c["fdtype"], st["flags"]) if ref == "F" else to_np(k, st["vals"])
+                elif op == "sort":
+                    x.sort()
+                elif op == "reverse":
+                    x[:] = x[::-1].copy()
+                elif op == "rotate":
+                    x[:] = np.roll(x, 1)
+                elif op == "negate":
+                    np.negative(x, out=x)
+                elif op == "dup":
+                    if x.size >= 2:
+                        i_, j_ = _random.Random(st["seed"]).sample(range(x.size), 2)
+                        x[j_] = x[i_]
+                elif op == "swap-inner":
+                    if x.size >= 4:
+                        x[[1, x.size - 2]] = x[[x.size - 2, 1]]
+                    elif x.size >= 2:
+                        x[[0, 1]] = x[[1, 0]]
+                elif op == "rebind-equal":
+                    slot[ref] = x.copy()                    # a different object with equal contents
+                elif op == "rebind-new":
+                    slot[ref] = to_np(k, st["vals"]).astype(x.dtype)
+        # the same calls once more, alone: fresh copies of the contents each call saw (independence of history)
+        for rec, again in later:
+            rec["fresh"] = again()
+        return {"calls": calls}
+
+    def _call_term(self, k, rec):
+        px = pfx(k)
+        out = rec["out"]
+        if rec["fn"] in ("match", "match_multi"):
+            return "%s_matchx %s %s %s %s %s" % (px, cbool(bool(rec["presorted"])), cbool(rec["fn"] == "match_multi"), cvals(k, rec["a1"]),
+                                                 cvals(k, rec["a2"]), cres(out, lambda o: "(%s, %s)" % (cnats(o[0]), cnats(o[1]))))
+        if rec["fn"] == "unique":
+            pr = lambda o: ("(UVals %s)" % cvals(k, o["vals"])) if "vals" in o else ("(UIdx %s)" % cnats(o["idx"]))   # noqa
+            return "%s_unique_call false %s %s %s %s" % (px, cnats(rec["argsort"]), cvals(k, rec["a"]), cbool(bool(rec["values"])), cres(out, pr))
+        pr = lambda o: "(%s, %s, %s)" % (cbool(o["scalar"]), cnats(o["idx"]),   # noqa
+                                         "None" if o["vals"] is None else "(Some %s)" % cvals(k, o["vals"]))
+        fk = [fkey(float.fromhex(f)) if isinstance(f, str) else int(f) for f in rec["flag"]]
+        return "%s_rem_dup_call %s %s %s %s %s" % (px, cnats(rec["argsort"]), cvals(k, rec["a"]), clist(fk, cz), cbool(bool(rec["values"])),
+                                                  cres(out, pr))
+
+    def term(self, c, out):
+        k = c["kind"]
+        ts = []
+        for rec in out["calls"]:
+            ts.append(self._call_term(k, rec))
+            if "fresh" in rec and list(rec["fresh"])[:2] != list(rec["out"])[:2]:
+                ts.append("1%Z")                            # differs from the same call made alone on fresh copies
+        return "(fold_right Z.lor 0%%Z [%s])" % "; ".join(ts)
+
+    def nontrivial(self, c, out):
+        # some object was passed again after its contents were changed in place, and some match call matched partly
+        seen, changed_then_reused = set(), False
+        dirty = set()
+        for st in c["steps"]:
+            if st["op"] in ("match", "match_multi"):
+                if st["a1"] in dirty or st["a2"] in dirty:
+                    changed_then_reused = True
+                seen.update([st["a1"], st["a2"]])
+            elif st["op"] in ("unique", "rem_dup"):
+                if st["arr"] in dirty or st["flag"] in dirty:
+                    changed_then_reused = True
+                seen.update([st["arr"], st["flag"]])
+            elif st["op"] in ("perm", "replace", "sort", "reverse", "rotate", "negate", "swap-inner", "dup") and st["ref"] in seen:
+                dirty.add(st["ref"])
+        return changed_then_reused and len(out["calls"]) >= 2
+
+    def show(self, c):
+        return None
+
+
+ENTRIES = [Match(), MatchMulti(), MatchForms(), Unique(), UniqueValues(), UniqueCall(), RemDup(), RemDupValues(), RemDupCall(), History()]
 
 TRUSTED = [
     "Coq 8.16.1 kernel (coqc, vm_compute; no native_compute); all C06 theorems are closed under the global context (no axioms)",
